@@ -12,6 +12,10 @@ TRACE_CFG = lambda stepwise: C.cfg(spec='TraceSpec', constants={'Stepwise': step
 
 def run_case(case, taps='all'):
     mode = case.get('mode', 'mux')
+    if 'multi' in case:
+        # this pipeline together with its sibling pipelines on one shared store
+        m = case['multi']
+        return M.run_multi(m['pipes'], m['schedule'], taps=taps)[m['index']]
     if mode == 'mux':
         return M.run_mux(case['pipe'], case['src'], timescale=case.get('timescale'), taps=taps)
     if mode == 'src':
@@ -89,7 +93,7 @@ def judge(V, cases, relevant, stats, family='', keep_traces=None):
             V.violation({'family': family, 'ops': ' '.join(op_names(tr['pipe'])),
                          'pipe': json.dumps(tr['pipe'], sort_keys=True),
                          'mode': tr['mode'], 'src': tr['src'],
-                         'timescale': cases[i].get('timescale'),
+                         'timescale': cases[i].get('timescale'), 'multi': cases[i].get('multi'),
                          'clauses': ['%s:%s' % pn for pn in names]},
                         '+'.join(sorted({n for _, n in mine})),
                         detail='first rejected at source step %s' % step)
@@ -124,6 +128,8 @@ def replay(prop, path, relevant):
     w = json.load(open(path))['witness']
     case = {'pipe': json.loads(w['pipe']), 'mode': w['mode'], 'src': w['src'],
             'timescale': w.get('timescale')}
+    if w.get('multi'):
+        case['multi'] = w['multi']
     tr = run_case(case)
     if w.get('untapped'):
         u = run_case(case, taps='ends')
